@@ -172,6 +172,7 @@ func (a *dataSetAof) Close() {
 	a.mux.Unlock()
 	if writer != nil {
 		writer.Close()
+		writer.close() // see CloseWriter
 	}
 	for _, r := range readers {
 		r.Close()
@@ -187,6 +188,10 @@ func (a *dataSetAof) CloseWriter() {
 	a.mux.Unlock()
 	if writer != nil {
 		writer.Close()
+		// a writer that is ending on its own seals (or, when empty, removes) its last file from its own
+		// goroutine and Close returns at once : wait for that, the caller is about to create a writer
+		// that may reuse the file name
+		writer.close()
 	}
 }
 
